@@ -54,6 +54,7 @@ class Server:
         e = {"PATH": os.environ.get("PATH", ""), "HOME": os.environ.get("HOME", "/root"), "TZ": "UTC"}
         if env:
             e.update(env)
+        e = {k: v for k, v in e.items() if not (k in ("HOME", "XDG_CONFIG_HOME") and v == "")}    # "" = really unset
         self.args = args
         self.proc = subprocess.Popen([binary] + args, stdout=subprocess.PIPE, stderr=subprocess.PIPE, env=e, cwd=cwd)
         self.lines = []
